@@ -143,7 +143,16 @@ def paths_of(node, prefix=()):
 
 
 def mutate(rng, doc):
-    """one structural mutation; returns (mutated document, description)"""
+    """one structural mutation; returns (mutated document, description).  A
+    mutation that does not apply to the shape at hand (the document may already
+    have been mutated) is a no-op."""
+    try:
+        return _mutate(rng, doc)
+    except (TypeError, AttributeError, KeyError, IndexError, ValueError):
+        return copy.deepcopy(doc), "noop"
+
+
+def _mutate(rng, doc):
     d = copy.deepcopy(doc)
     pos = paths_of(d)
     r = rng.random()
